@@ -82,7 +82,6 @@ func genWorld(rng *core.Rng, i int, inEnvelope bool) world.WorldSpec {
 	genIssuer(rng, &s, i%7 == 0)
 	s.Untrusted = rng.Chance(1, 6)
 	s.DecoyAnchors = rng.Intn(3)
-	s.ExtraCerts = 0
 	if rng.Chance(1, 8) {
 		s.Indefinite = true
 	}
@@ -190,5 +189,10 @@ func genWorld(rng *core.Rng, i int, inEnvelope bool) world.WorldSpec {
 	}
 	s.SkipImages = rng.Chance(1, 6)
 	s.B, s.MaxLe = genBehaviour(rng, inEnvelope)
+	// order of the data group hash list in the security object: a SEQUENCE OF, ascending by custom only
+	s.HashOrder = core.Pick(rng, []int{0, 0, 0, 1, 2})
+	s.ExtraCerts = core.Pick(rng, []int{0, 0, 0, 1})
+	s.ExtraFirst = rng.Bool()
+	s.EmbedCSCA = rng.Chance(1, 6)
 	return s
 }
